@@ -126,6 +126,17 @@ CLAIMED = {
              "function are covered by the C01 units.",
         technique="symbolic execution of the real function with np rebound to svx.symnp + z3 (QF_NRA)",
         ref="5-C16"),
+    "C17": dict(
+        text="Contract-based verification of the real IO / CosseratRodIO / EulerianFieldIO methods executed against a contract "
+             "stub of h5py with array elements being OPAQUE SYMBOLS (bit-exactness = identity of the symbol that arrives; covers "
+             "NaN/inf/denormals by parametricity): sources untouched by save, documented on-disk names and shapes, load(save(x)) "
+             "restores every field, grid and time stamp, every missing dataset and every differing grid parameter raises. "
+             "Shapes and registries are an enumerated family (dim 2/3, N = 1..5 incl. N == dim, 1-2 grids, grids without fields, "
+             "equal names on two grids): all contents, bounded layouts. Native replay with real h5py and NaN/inf payloads.",
+        note=TRUST + " Assumed: h5py contract (verbatim storage, visit enumerates all paths), backed by the native runs with the "
+             "real h5py. 'differ' = beyond numpy.allclose default tolerance. Level: proof over values, bounded (exhaustive) layouts.",
+        technique="parametric symbolic execution of the real IO methods against an h5py contract stub",
+        ref="5-C17"),
     "C19": dict(
         text="Contract-based deductive proof: Brinkmann closures (convex combination, identity at chi=0, contraction identity), "
              "characteristic function (range, plateaus incl. +-w, monotone, H(phi)+H(-phi)=1; sin axiomatised), boundary damping "
@@ -181,7 +192,7 @@ def main():
                                      "symbolic extent, side-car contracts, obligations discharged by an exact polynomial "
                                      "normaliser, z3 and cvc5; refutations replayed on the natively compiled code")],
         checks=checks,
-        notes="Fix commits in /repo (unguarded, 'fix:' prefix): a1b0777 (boundary penalisation width 1). Known findings: known_findings.json.",
+        notes="Fix commits in /repo (unguarded, 'fix:' prefix): a1b0777 (boundary penalisation width 1), 78b3125 (stable time step), 4f039fa and the following commit (IO). Known findings: known_findings.json.",
         not_applicable=na,
     )
     json.dump(m, open(os.path.join(ROOT, "MANIFEST.json"), "w"), indent=1)
